@@ -28,6 +28,7 @@ pub fn opts(which: Which) -> Opts {
     o.tags_on_wrappers = false;
     o.unwrap_tags_shared = false;
     o.close_attr_pct = 10;
+    o.bom_pct = 4;
     // opening tags that span several lines (one attribute per line, the README's layout): all their lines are tag lines
     o.multiline_tag_pct = 10;
     match which {
